@@ -183,6 +183,19 @@ pub fn scenario(seed: u64, idx: u64) -> Scenario {
         }
         sc.conns.push(c);
     }
+    // a benign target, then a climbing one whose text collides with it under a well-known weak 32-bit
+    // string hash (FNV, djb2, sdbm, Java's, Jenkins', CRC-32; pairs precomputed by tools/collide): caches
+    // and memo tables keyed by such a fingerprint take the second for the first
+    if rng.chance(1, 8) {
+        let pairs: Vec<(&str, &str)> = include_str!("collisions.txt").lines().filter_map(|l| { let mut it = l.split('\t'); let _h = it.next()?; Some((it.next()?, it.next()?)) }).collect();
+        if !pairs.is_empty() {
+            let (benign, climbing) = *rng.pick(&pairs);
+            let ph = sc.conns.iter().map(|c| c.phase).max().unwrap_or(0) + 1;
+            let id = sc.conns.len();
+            sc.conns.push(Conn::simple(id, ph, req("GET", benign, &[], b""), "collision_benign"));
+            sc.conns.push(Conn::simple(id + 1, ph + 1, req("GET", climbing, &[], b""), "collision_climbing"));
+        }
+    }
     // now and then the owner removes the served directory while the server runs: whatever the server
     // makes of a working directory that is gone, it is no licence to serve the rest of the disk
     if !overlapped && n >= 3 && rng.chance(1, 12) {
